@@ -30,6 +30,10 @@ CompactProg(pr) == [f \in DOMAIN pr |-> [i \in 1 .. Len(pr[f]) |-> OpStr(pr[f][i
 \* set of printed behaviours exercises every (state, operation) pair of the model.  Always TRUE.
 EmitStep == PrintT("STEP " \o ToJson([prog |-> CompactProg(prog'), evs |-> CompactEvs(evs'), end |-> end', bad |-> bad']))
 
+\* FocusMode: print the finished behaviours in which the search skipped a stale entry and hit a live waiter
+EmitFocus == (end' # "run" /\ focus') =>
+  PrintT("STEP " \o ToJson([prog |-> CompactProg(prog'), evs |-> CompactEvs(evs'), end |-> end', bad |-> bad']))
+
 \* Print one behaviour (program + predicted events) when it has ended; used with -simulate
 Emit == end # "run" => PrintT("BEHAVIOUR " \o ToJson([prog |-> prog, evs |-> evs, end |-> end, bad |-> bad]))
 =============================================================================
